@@ -13,6 +13,11 @@ def _b(items):
 def cat(*parts):
     from symex import values as V
 
+    if any(isinstance(p, V.SymBlob) for p in parts):
+        segs = []
+        for p in parts:
+            segs.extend(V.SymBlob.of(p).segs)
+        return V.SymBlob(segs).norm()
     items = []
     for p in parts:
         items.extend(V.seq_items(p))
@@ -22,14 +27,14 @@ def cat(*parts):
 # ------------------------------------------------------------------------------------------------ X.690 DER
 
 
-def der_len(n: int) -> bytes:
-    """definite length octets, minimal (X.690 8.1.3 + 10.1)"""
+def der_len(n):
+    """definite length octets, minimal (X.690 8.1.3 + 10.1); n may be a solver variable"""
     if n < 128:
-        return bytes([n])
+        return _b([n])
     k = 1
     while n >= (1 << (8 * k)):
         k += 1
-    return bytes([0x80 | k]) + n.to_bytes(k, "big")
+    return cat(bytes([0x80 | k]), n.to_bytes(k, "big"))
 
 
 def base128(n):
@@ -55,7 +60,9 @@ def der_ident(tag_class, constructed, number):
 
 
 def der_tlv(tag_class, constructed, number, content):
-    return cat(der_ident(tag_class, constructed, number), der_len(len(content)), content)
+    from symex import values as V
+
+    return cat(der_ident(tag_class, constructed, number), der_len(V.blen(content)), content)
 
 
 def der_int_content(v):
